@@ -33,12 +33,20 @@ for f in sorted(glob.glob(os.path.join(wd,'cases_*.v'))):
                 print("A:",a[max(0,i-150):i+250]); print("B:",b[max(0,i-150):i+250])
             else: print(out[-3000:],r.stderr[-1500:])
         elif mode=='reqs':
-            m=re.search(r'= Some\s*\((\[.*\]),\s*(\[.*\])\)\s*:\s*option',out,re.S)
-            print(out[-200:] if not m else '')
+            body=out[out.index('= Some'):]
+            items=[re.sub(r'\s+',' ',t) for t in re.findall(r'\("http.*?\]\)(?=;|\])',body,re.S)]
+            # the printed pair is (model list, observed list): split at the first "], [" at depth 1
+            depth=0; cut=None
+            for i,ch in enumerate(body):
+                if ch=='[': depth+=1
+                elif ch==']':
+                    depth-=1
+                    if depth==0: cut=i; break
+            m=cut is not None
             if m:
                 def split(x):
-                    return sorted(re.sub(r'\s+',' ',t) for t in re.findall(r'\("http.*?\]\)',x,re.S))
-                A,B=split(m.group(1)),split(m.group(2))
+                    return sorted(re.sub(r'\s+',' ',t) for t in re.findall(r'\("http.*?\]\)(?=;|\])',x,re.S))
+                A,B=split(body[:cut+1]),split(body[cut+1:])
                 for t in A:
                     if t not in B: print("MODEL ONLY:",t[:1500])
                 for t in B:
